@@ -22,7 +22,7 @@ for mid in ids:
         for p in claimed:
             os.makedirs("/tmp/benign_scratch_" + p, exist_ok=True)
             shutil.copy("known_findings.json", "/tmp/benign_scratch_" + p + "/known_findings.json")
-        procs = {p: subprocess.Popen(["./bin/mverif", "check", p, "--tier", "quick", "--repo", WT, "--verif", "/tmp/benign_scratch_" + p], stdout=subprocess.PIPE, stderr=subprocess.STDOUT, text=True) for p in claimed}
+        procs = {p: subprocess.Popen([os.environ.get("MVERIF_BIN", "./bin/mverif"), "check", p, "--tier", "quick", "--repo", WT, "--verif", "/tmp/benign_scratch_" + p], stdout=subprocess.PIPE, stderr=subprocess.STDOUT, text=True) for p in claimed}
         for p, pr in procs.items():
             out = pr.communicate()[0]
             if pr.returncode != 0:
